@@ -827,6 +827,21 @@ where
     fn just_passed_in_seconds_for_funding(&mut self) -> gmsol_model::Result<u64> {
         self.just_passed_in_seconds(ClockKind::Funding)
     }
+
+    /// Logged as `insufficient_funding:<cost>:<paid in collateral>:<paid in secondary>:<collateral is long>`
+    /// (the store program emits `InsufficientFundingFeePayment` here).
+    fn on_insufficient_funding_fee_payment(
+        &mut self,
+        cost_amount: &Self::Num,
+        paid_in_collateral_amount: &Self::Num,
+        paid_in_secondary_output_amount: &Self::Num,
+        is_collateral_token_long: bool,
+    ) -> gmsol_model::Result<()> {
+        self.callbacks.push(format!(
+            "insufficient_funding:{cost_amount}:{paid_in_collateral_amount}:{paid_in_secondary_output_amount}:{is_collateral_token_long}"
+        ));
+        Ok(())
+    }
 }
 
 /// Test Position
